@@ -19,6 +19,7 @@ RULE = ("Engine 'mean': Hypothesis draws tomograms (numpy or dask with drawn chu
         "subset of molecules is decoded; halves must be disjoint, exhaustive, non-empty (n >= 2), reproducible for a "
         "seed, consistent with the full average, and identical between average_split and fsc_with_halfmaps; group "
         "variant per group. Non-trivial = >= 3 molecules with a chunked dask tomogram, or a decoded split.")
+RULE += (" " + 'Also: averages with the subtomogram stack split into dask blocks of 1-5 particles (array.chunk-size), and an FSC evaluation between two average_split calls.')
 TOLERANCES = {"mean": "1e-5 * range", "chunking": "1e-6 * range (mean-padding of a chunked array sums in a different order: 1 ulp)", "split decode": "exact (powers of two in float32)"}
 ASSUMPTIONS = ["split decoding uses identity-oriented molecules at integer positions inside constant blocks (order 1), so every subtomogram is exactly constant"]
 
